@@ -4,7 +4,9 @@ import re
 
 import emit
 
-NAMES = {"n1": 1, "n2": 2, "n<3>&": 3}
+# inverse of the harness tables nameStr / groupStr (codes 1 and 2 differ by a trailing blank)
+NAMES = {"n1": 1, "n1 ": 2, "n<3>&": 3}
+GROUPS = {"g1": 1, "g1 ": 2}
 
 
 def go_unquote(s):
@@ -35,6 +37,8 @@ def name_code(s):
 
 
 def group_code(s):
+    if s in GROUPS:
+        return GROUPS[s]
     m = re.match(r'g(\d+)$', s)
     if not m:
         raise ValueError("unknown group " + s)
